@@ -31,6 +31,29 @@ def rule_A1(ctx, prog, label, rule='A1'):
     return rr
 
 
+def rule_A1x(ctx, prog, label, operands, rule='A1x'):
+    """Named operands (function, parameter index) have no write/free effect - whether or not they are declared const."""
+    rr = RuleResult(rule, 'named input operands have no write or free effect, through casts and callees, whatever their declared qualifier')
+    eff = ctx.effects(prog)
+    for (fname, i) in operands:
+        f = prog.funcs.get(fname)
+        if f is None or f.body is None or i >= len(f.params):
+            raise AnalysisBroken('A1x: %s / parameter %d vanished' % (fname, i))
+        S = eff.of(f)
+        pa = f.params[i]
+        rr.instances += 1
+        bad = None
+        for (r, part), site in list(S.writes.items()) + [(k, 'freed: ' + v) for k, v in S.frees.items()]:
+            if r == ('p', i) and part != 'win':
+                bad = (part, site)
+                break
+        rr.ob(bad is None, dict(function=f.name, parameter=pa.name, type=pa.type, verdict='no write effect'),
+              Finding(rule, '%s|%s|%s' % (rule, f.name, pa.name), f.loc, f.name,
+                      'input operand `%s` of %s may be modified (%s): %s' % (pa.name, f.name, bad[0] if bad else '', bad[1] if bad else ''),
+                      dict(chain=bad[1] if bad else ''), label))
+    return rr
+
+
 def rule_A2(ctx, prog, label, rule='A2'):
     """The mzd_t header fields are assigned only inside the two constructors; the constructors agree on how
     width and high_bitmask derive from ncols; rowstride is even in mzd_init and copied in mzd_init_window."""
